@@ -114,6 +114,7 @@ const (
 	nameStdRuns
 	nameCustom
 	nameMixed
+	nameStdEndsFixed
 	numNameModes
 )
 
@@ -173,6 +174,24 @@ func (s *fontSpec) expandNames() []string {
 			if r.intn(4) == 0 {
 				add(custom(len(names)))
 			}
+		}
+	case nameStdEndsFixed:
+		// SIDs 1..m in glyph order with the middle permuted: the list starts
+		// and ends like the identity without being it
+		m := n - 1
+		if m > 390 {
+			m = 390
+		}
+		perm := make([]int, m)
+		for i := range perm {
+			perm[i] = i + 1
+		}
+		for i := m - 2; i > 1; i-- {
+			j := 1 + r.intn(i)
+			perm[i], perm[j] = perm[j], perm[i]
+		}
+		for _, sid := range perm {
+			add(ref.StdStrings[sid])
 		}
 	case nameCustom:
 	case nameMixed:
@@ -285,6 +304,7 @@ const (
 	cidShuffled
 	cidOffset
 	cidDescending
+	cidEndsFixed
 	numCIDModes
 )
 
@@ -328,6 +348,22 @@ func (s *fontSpec) expandCIDs() []int {
 		if s.CIDMode == cidDescending {
 			for i, j := 1, n-1; i < j; i, j = i+1, j-1 {
 				cids[i], cids[j] = cids[j], cids[i]
+			}
+		}
+	case cidEndsFixed:
+		// CIDs 1..n-1 with the middle permuted (or one large value in the
+		// middle): first and last entry are those of the identity
+		for i := range cids {
+			cids[i] = i
+		}
+		if n >= 5 {
+			if r.intn(3) == 0 {
+				cids[2+r.intn(n-3)] = n + r.intn(65535-n)
+			} else {
+				for i := n - 2; i > 2; i-- {
+					j := 2 + r.intn(i-1)
+					cids[i], cids[j] = cids[j], cids[i]
+				}
 			}
 		}
 	case cidOffset:
